@@ -30,7 +30,8 @@ def campaigns(tier):
     if tier == "thorough":
         return [("corpus", ["corpus", CORPUS], None),
                 ("exhaustive-5-crash", ["explore", "5", "udfr", "1"], ["5", "udfr"]),
-                ("exhaustive-6", ["explore", "6", "ufr", "0"], ["6", "ufr"]),
+                ("exhaustive-6", ["explore", "6", "udfr", "0"], ["6", "udfr"]),
+                ("exhaustive-6-crash-ufr", ["explore", "6", "ufr", "1"], ["6", "ufr"]),
                 ("random", ["random", "3000", "14"], None)]
     return [("corpus", ["corpus", CORPUS], None),
             ("exhaustive-4-crash", ["explore", "4", "udfr", "1"], ["4", "udfr"]),
@@ -41,12 +42,12 @@ def campaigns(tier):
 def run(tier):
     res = Result(PROP, tier, "proof")
     st = standard_build(res, PROP, group="c10", harness_bin="c10", model_deps=["theories/Model/Durability.vo"])
-    # no theory of this property imports a generated table: a tablegen failure (another group's
-    # source item renamed) is not an obligation of C10
-    tg = [b for b in st["broken"] if b["obligation"] == "tablegen"]
+    # C10 imports only Gen/Durability_gen.v: a tablegen failure of another group (a source item of
+    # theirs renamed) is not an obligation of C10
+    tg = [b for b in st["broken"] if b["obligation"] == "tablegen" and "group=durability" not in b.get("detail", "")]
     if tg:
         res.notes["tablegen_failed_but_unused_by_C10"] = tg[0]["detail"][-500:]
-        st["broken"] = [b for b in st["broken"] if b["obligation"] != "tablegen"]
+        st["broken"] = [b for b in st["broken"] if b not in tg]
     work = os.path.join(BUILD, "work", "%s-%s" % (PROP, tier))
     os.makedirs(work, exist_ok=True)
     os.makedirs("/tmp/c10", exist_ok=True)
